@@ -130,7 +130,7 @@ func NewFunc(token token.Token, name *Ident, parameters []*Ident, defaults map[s
 
 func (f *Func) ExpressionNode() {}
 
-func (f *Func) IsExpression() bool { return f.name == nil }
+func (f *Func) IsExpression() bool { return true }
 
 func (f *Func) Token() token.Token { return f.token }
 
